@@ -161,6 +161,49 @@ theorem raises_iff (g : Pipe) (fails : Nat → Bool) (ord : List Nat) :
   unfold runLocal
   simp [List.any_eq_true]
 
+/-! ### how the dependency sets are built: `depends_on`, bash commands, `PythonJob.call` arguments -/
+
+/-- the pipeline declares `decl`: the dependency set of every job holds exactly the jobs its statements add
+(`jobDeps`), in whatever order the set iterates -/
+def Declares (g : Pipe) (decl : Nat → JobDecl) : Prop :=
+  ∀ j, j < g.n → ∀ d, d ∈ g.deps j ↔ d ∈ jobDeps j (decl j)
+
+/-- **Call-argument dependency rule.** One `call(f, *args, **kwargs)` makes the job depend on exactly the other jobs
+whose resources occur in a positional argument **or in a keyword-argument value**, at any nesting depth of lists,
+tuples and dict values. -/
+theorem call_argument_dependencies (self : Nat) (args : List Arg) (kwargs : List (String × Arg)) (p : Nat) :
+    p ∈ callDeps self args kwargs ↔
+      p ≠ self ∧ ((∃ a ∈ args, Mentions a p) ∨ ∃ kv ∈ kwargs, Mentions kv.2 p) :=
+  mem_callDeps self args kwargs p
+
+/-- nesting: a resource inside a list inside a dict value inside a keyword argument still counts -/
+example : 5 ∈ callDeps 0 [.value] [("path", .dict [.value, .seq [.res (some 5)]])] := by decide
+/-- dict keys, plain values, input files (no source) and the job's own results add nothing -/
+example : callDeps 0 [.res none, .value, .res (some 0)] [("n", .value)] = [] := by decide
+
+/-- **A consumer is numbered after its producer and depends on it**: in an accepted pipeline, a job one of whose calls
+mentions (positionally or by keyword, nested or not) a resource of another job `p` has `p` among its dependencies and
+comes strictly later in the execution order. -/
+theorem consumer_after_producer (g : Pipe) (decl : Nat → JobDecl) (ord : List Nat) (hd : Declares g decl)
+    (h : accept g = .ok ord) (j : Nat) (hj : j < g.n) (c : List Arg × List (String × Arg)) (hc : c ∈ (decl j).calls)
+    (p : Nat) (hp : p ≠ j) (hm : (∃ a ∈ c.1, Mentions a p) ∨ ∃ kv ∈ c.2, Mentions kv.2 p) :
+    p ∈ g.deps j ∧ p ∈ ord ∧ ord.idxOf p < ord.idxOf j := by
+  have hdep : p ∈ g.deps j := (hd j hj p).2 ((mem_jobDeps j (decl j) p).2 (Or.inr (Or.inr ⟨hp, c, hc, hm⟩)))
+  obtain ⟨hperm, hfw⟩ := accepted_is_topological g ord h
+  have hjo : j ∈ ord := hperm.mem_iff.2 (List.mem_range.2 hj)
+  exact ⟨hdep, hfw j hjo p hdep⟩
+
+/-- **… and is skipped when the producer failed or was skipped** (unless it is `always_run`). -/
+theorem consumer_skipped_when_producer_fails (g : Pipe) (decl : Nat → JobDecl) (ord : List Nat) (fails : Nat → Bool)
+    (hd : Declares g decl) (h : accept g = .ok ord) (j : Nat) (hj : j < g.n)
+    (c : List Arg × List (String × Arg)) (hc : c ∈ (decl j).calls) (p : Nat) (hp : p ≠ j)
+    (hm : (∃ a ∈ c.1, Mentions a p) ∨ ∃ kv ∈ c.2, Mentions kv.2 p) (har : g.alwaysRun j = false)
+    (hf : (fails p = true ∧ ¬ skipped g fails ord p) ∨ skipped g fails ord p) : skipped g fails ord j := by
+  obtain ⟨hdep, _, _⟩ := consumer_after_producer g decl ord hd h j hj c hc p hp hm
+  obtain ⟨hperm, _⟩ := accepted_is_topological g ord h
+  have hjo : j ∈ ord := hperm.mem_iff.2 (List.mem_range.2 hj)
+  exact ((skip_set_is_lfp g fails ord h).1 j hjo).2 ⟨har, p, hdep, hf⟩
+
 /-! ### non-vacuity -/
 
 /-- diamond 0 → {1, 2} → 3 created in the order 3, 1, 2, 0 (so creation order is not an execution order) -/
